@@ -61,6 +61,9 @@ def lossy_op(v):
                 return f'{cur.func.id}()'
             if cur.func.id in ('min', 'max') and len(cur.args) >= 2:
                 return f'{cur.func.id}() clamp'
+            if cur.func.id == 'sorted' and len(cur.args) >= 1 and isinstance(cur.args[0], ast.Attribute) \
+                    and isinstance(cur.args[0].value, ast.Name) and cur.args[0].value.id == 'self':
+                return 'sorted() (the order of the list is part of its value)'
             if cur.func.id in ('str', 'float', 'int', 'bool', 'repr') and len(cur.args) == 1:
                 cur = cur.args[0]
                 continue
